@@ -387,6 +387,10 @@ pub fn run() {
       }
     }
   }
+  if let Some((snap, r)) = seen.iter().nth(seen.len() / 2) {
+    run.sample(json!({"state": {"stored": snap.definitions, "namespace_lookup": snap.by_namespace.iter().map(|e| e.0.clone()).collect::<Vec<_>>(), "name_lookup": snap.by_name.iter().map(|e| e.0.clone()).collect::<Vec<_>>(), "deployed": snap.model_evaluators}, "reference": format!("{:?}", r)}));
+  }
+  run.sample(json!({"operations": ops.iter().map(|o| o.show()).collect::<Vec<_>>()}));
   run.set("states", json!(seen.len()));
   run.set("transitions", json!(transitions));
   run.set("traces_validated_against_impl", json!(transitions));
